@@ -923,6 +923,15 @@ def _canon(f, op, depth=3):
         if rv["k"] == "unop" and depth > 0:
             return "%s(%s)" % (rv["op"], _canon(f, rv["a"], depth - 1))
         if rv["k"] == "cast" and depth > 0:
+            # a cast between signed and unsigned integers changes what a comparison means (`i as usize >= n` ends a loop on a
+            # negative i, `i >= n as i64` does not): it is part of the condition. Other casts are transparent.
+            tgt = str(rv.get("ty", ""))
+            q_ = M.op_place(rv["a"])
+            src = f.local_ty(q_["l"]) if q_ is not None and not q_["p"] else ""
+            ints_s = ("i8", "i16", "i32", "i64", "i128", "isize")
+            ints_u = ("u8", "u16", "u32", "u64", "u128", "usize")
+            if (tgt in ints_u and src in ints_s) or (tgt in ints_s and src in ints_u):
+                return "as_%s(%s)" % (tgt, _canon(f, rv["a"], depth - 1))
             return _canon(f, rv["a"], depth - 1)
         if rv["k"] == "discr":
             return "discr"
